@@ -2,6 +2,7 @@ import PromModel.Tsdb.HistLayout
 import PromProofs.HistLayout
 import PromProofs.HistSide
 import PromProofs.HistIdxBoth2
+import PromProofs.HistSeries
 /-
   C11 — Native histograms are stored and read back faithfully (layout level).
   Property theorems only; the model is PromModel/Tsdb/HistLayout.lean, lemmas are in
@@ -116,6 +117,74 @@ def append_roundtrip_full : Prop :=
     (s.read.map (·.1)) = samples.map (·.1) ∧
     ∀ p ∈ s.read.zip samples, (p.2.2.stale = true → p.1.2.stale = true) ∧
       (p.2.2.stale = false → p.1.2.sem = p.2.2.sem)
+
+/-- **append_roundtrip.**  For every sequence of valid histograms (`WFs`: bucket slices match their spans, spans
+    enumerate strictly increasing indices, no negative-zero threshold/bounds, custom bounds only with the custom
+    schema; staleness markers unconstrained) and every head-level cut oracle, appended through the transcribed
+    `memSeries.appendHistogram` → `AppendHistogram`/`AppendFloatHistogram` with all four outcomes (append | recode
+    the chunk forward | recode the incoming histogram backward | cut a new chunk), reading the series back
+    yields, sample by sample, the same timestamp, a staleness marker for a staleness marker, and otherwise a
+    histogram with the same meaning (`Sem`: flavour, schema, zero threshold bits, count, zero count, sum bits,
+    bucket maps of both sides, custom bounds). -/
+theorem append_roundtrip (ops : List ((Int × Hist) × Bool)) (s : Series) (hwf : ∀ p ∈ ops, WFs p.1.2)
+    (h : runSeries ops Series.empty = .ok s) : All2 RdRel s.read (ops.map (·.1)) := by
+  obtain ⟨gs, inv, hf⟩ := runSeries_inv ops Series.empty [] trivial hwf s h
+  have := SInv.read_rel _ gs inv
+  rw [hf] at this
+  simpa [Series.read, Series.chunks] using this
+
+/-- the hypotheses are satisfiable by a run that exercises forward recoding: {0} then {-1,0,2} -/
+example : ∃ s, runSeries
+    [((1, { float := false, hint := .unknown, schema := 0, zt := 0, count := 5, zcount := 0, sum := 0,
+            pSpans := [⟨0, 1⟩], nSpans := [], pB := [5], nB := [], custom := [] }), false)] Series.empty = .ok s :=
+  ⟨_, by simp [runSeries, Series.append, Series.empty, appendHist, Chunk.empty, Chunk.num, bind, Except.bind,
+    pure, Except.pure, Except.map]; rfl⟩
+
+/-- `append_roundtrip` in the shape of `append_roundtrip_full`: literally that statement, plus validity of the
+    samples and a cut oracle value for every sample (`zip` truncates otherwise). -/
+theorem append_roundtrip_zip (samples : List (Int × Hist)) (cuts : List Bool) (s : Series)
+    (hwf : ∀ p ∈ samples, WFs p.2) (hlen : samples.length ≤ cuts.length)
+    (h : (samples.zip cuts).foldlM (fun (st : Series) (p : (Int × Hist) × Bool) =>
+      (st.append p.2 p.1.1 p.1.2).map (·.1)) Series.empty = .ok s) :
+    (s.read.map (·.1)) = samples.map (·.1) ∧
+    ∀ p ∈ s.read.zip samples, (p.2.2.stale = true → p.1.2.stale = true) ∧
+      (p.2.2.stale = false → p.1.2.sem = p.2.2.sem) := by
+  have hm : (samples.zip cuts).map (·.1) = samples := by
+    rw [List.map_fst_zip]; exact hlen
+  have := append_roundtrip (samples.zip cuts) s (fun p hp => hwf p.1 (List.of_mem_zip hp).1) h
+  rw [hm] at this
+  exact ⟨this.map_fst, fun p hp => (this.zip_mem p hp).2⟩
+
+/-- The literal `append_roundtrip_full` (no validity hypothesis) is false: IEEE `==` in `appendable` accepts a
+    zero threshold of -0.0 into a chunk whose threshold is +0.0, and the sample is read back with +0.0 — the
+    same number, but not the same bits (`Sem` compares bits).  `Histogram.Validate` accepts -0.0. -/
+theorem append_roundtrip_full_witness : ¬ append_roundtrip_full := by
+  intro hfull
+  let hA : Hist := { float := false, hint := .unknown, schema := 0, zt := 0, count := 1, zcount := 1, sum := 0,
+                     pSpans := [], nSpans := [], pB := [], nB := [], custom := [] }
+  let hB : Hist := { hA with zt := 2 ^ 63, count := 2, zcount := 2 }
+  have hrun : ([(1, hA), (2, hB)].zip [false, false]).foldlM (fun (st : Series) (p : (Int × Hist) × Bool) =>
+      (st.append p.2 p.1.1 p.1.2).map (·.1)) Series.empty =
+      .ok ⟨[], some { float := false, hdr := .unknown, schema := 0, zt := 0, custom := [], pSpans := [], nSpans := [],
+                       rev := [⟨2, 2, 2, 0, [], []⟩, ⟨1, 1, 1, 0, [], []⟩] }⟩ := by
+    simp [hA, hB, Series.append, Series.empty, appendHist, Chunk.empty, Chunk.num, Chunk.appendRaw, Hist.stale,
+      staleBits, Chunk.appendable, Chunk.last, cLt, fEq, fIsNaN, fKey, customSchema, expandCounter, pairs, idxs,
+      idxsFrom, absVals, prefixSums, prefixFrom, expandGo, CW.init, CW.finish, bind, Except.bind, pure, Except.pure,
+      Except.map]
+  have := (hfull _ _ _ hrun).2
+  simp [Series.read, Series.chunks, Chunk.read, readFrom, Chunk.histOf, staleBits, hintOf, hA, hB, Hist.stale,
+    Hist.sem] at this
+
+/-- **caller_unchanged** for ALL samples of a run (not only chunk-starting ones): in every state reachable by
+    appending valid histograms, `memSeries.appendHistogram` hands a staleness marker back untouched and any other
+    valid histogram back with the same meaning (backward recoding replaces spans and bucket slices but not
+    `Sem`). -/
+theorem caller_unchanged (ops : List ((Int × Hist) × Bool)) (s : Series) (hwf : ∀ p ∈ ops, WFs p.1.2)
+    (hrun : runSeries ops Series.empty = .ok s) (cut : Bool) (t : Int) (h : Hist) (hw : WFs h)
+    (s' : Series) (h' : Hist) (o : Outcome) (hr : s.append cut t h = .ok (s', h', o)) :
+    (h.stale = true → h' = h) ∧ (h.stale = false → h'.sem = h.sem) := by
+  obtain ⟨gs, inv, _⟩ := runSeries_inv ops Series.empty [] trivial hwf s hrun
+  exact (Series.append_inv s gs inv cut t h hw s' h' o hr).2
 
 /-- **caller_unchanged (partial).**  Whenever the sample starts a chunk the caller's histogram is
     returned untouched.  (Backward recoding replaces spans and bucket slices by `adjustForInserts`/
